@@ -3,6 +3,7 @@ import SpoxModel.Model.Prog
 import SpoxModel.Model.ProgUsed
 import SpoxModel.Model.Containers
 import SpoxModel.Model.Bridge
+import SpoxModel.Model.ProgRequest
 /-!
 Line-protocol handler for C01: the model side of the translation validation.
 
@@ -147,7 +148,32 @@ def handleBridge (j : Json) : Json :=
   | .ok j => j
   | .error e => Json.mkObj [("error", e)]
 
+/-- `{"embed": {"p": nodes, "p2": nodes, "sigma": [..], "bound": n, "results": [[node, idx]…], "args": [a…]}}`
+    (nodes oldest first, as in the main request): the executable hypotheses of
+    `C01.needed_part_decides_values_checked` — `wfCheck` of both programs, `sigmaOk` of the table, `embedsNeeded`
+    of the requested results, and that the renamed main graph consists of arguments of `p2`. -/
+def handleEmbed (j : Json) : Json :=
+  match (do
+    let p := (← (← j.getObjValAs? (Array Json) "p").toList.mapM parseNode).reverse
+    let p2 := (← (← j.getObjValAs? (Array Json) "p2").toList.mapM parseNode).reverse
+    let tbl ← parseNats (← j.getObjVal? "sigma")
+    let bound ← j.getObjValAs? Nat "bound"
+    let res ← parseRefs (← j.getObjVal? "results")
+    let args ← parseNats (← j.getObjVal? "args")
+    let σ := sigmaOf tbl bound
+    let w := res.map VarRef.node
+    return Json.mkObj [("wf", toJson (wfCheck p)), ("wf2", toJson (wfCheck p2)),
+      ("sigmaOk", toJson (sigmaOk tbl bound)),
+      ("embeds", toJson (embedsNeeded p p2 σ w)),
+      ("needed", toJson (needed p w).eraseDups.length),
+      ("mainMapped", toJson ((args.map σ).all (isArg p2) && args.all (isArg p)))]) with
+  | .ok j => j
+  | .error e => Json.mkObj [("error", e)]
+
 def handle (req : Json) : Json :=
+  match req.getObjVal? "embed" with
+  | .ok j => handleEmbed j
+  | .error _ =>
   match req.getObjVal? "events" with
   | .ok evs => handleEvents evs
   | .error _ =>
